@@ -1,5 +1,12 @@
 package main
 
+import (
+	"encoding/json"
+	"fmt"
+	"os"
+	"path/filepath"
+)
+
 // Per-property statements of bounds and assumptions that go into the
 // evidence files.  The numbers are what the harness files under
 // /verif/harness enumerate; they are restated here for the reader of the
@@ -9,10 +16,33 @@ var boundsText = map[string]string{}
 var outsideText = map[string]string{}
 var extraAssumptions = map[string][]string{}
 
+// loadBounds reads /verif/harness/bounds.json: per property the bounds the
+// harnesses enumerate, what lies outside them and the stubs/assumptions used.
+func loadBounds(verifDir string) {
+	data, err := os.ReadFile(filepath.Join(verifDir, "harness", "bounds.json"))
+	if err != nil {
+		return
+	}
+	var b map[string]struct {
+		Bounds      map[string]string `json:"bounds"`
+		Outside     string            `json:"outside"`
+		Assumptions []string          `json:"assumptions"`
+	}
+	if err := json.Unmarshal(data, &b); err != nil {
+		fmt.Fprintln(os.Stderr, "harness/bounds.json:", err)
+		os.Exit(2)
+	}
+	for id, e := range b {
+		boundsText[id] = "quick: " + e.Bounds["quick"] + " | thorough: " + e.Bounds["thorough"]
+		outsideText[id] = e.Outside
+		extraAssumptions[id] = e.Assumptions
+	}
+}
+
 var commonAssumptions = []string{
 	"GOARCH amd64: int, uint and uintptr are 64 bits wide",
 	"go/ssa (x/tools v0.29.0) translation of /repo's current source is faithful; the interpreter is validated on every run by replaying solver models of explored paths against the native build",
-	"solver answers (z3 4.8.12 unless stated) are correct; any solver error line, unknown or timeout is reported as not decided, never as success",
+	"solver answers (the solvers are named in coverage.solvers) are correct; any solver error line, unknown or timeout is reported as not decided, never as success",
 	"slices grow by the interpreter's append policy, so code that depends on spare capacity aliasing after append is outside the model",
 }
 
